@@ -492,6 +492,35 @@ def dask_jobs(rng, tier, base):
                 d["chunks"] = ch
                 d["tag"] = "dask_" + t
                 jobs.append(d)
+    # non-square kernels in BOTH orientations (1x5, 5x1, 3x5, 5x3) with >= 2 chunks along the kernel's long axis:
+    # strips along x, strips along y and 1-cell chunks - a halo taken from the wrong kernel axis clips the windows
+    # at the interior chunk seams only there.  Always included, for every function that takes a kernel.
+    wide = [KFAMILY[1], KFAMILY[2], KFAMILY[4], KFAMILY[5], KFAMILY[6], KFAMILY[7], KFAMILY[8], KFAMILY[9]]
+    strips = lambda H, W: [[[H], [2] * (W // 2) + ([W % 2] if W % 2 else [])],
+                           [[2] * (H // 2) + ([H % 2] if H % 2 else []), [W]],
+                           [[1] * H, [1] * W]]
+    for rep in range(1 if q else 4):
+        for K in wide:
+            H, W = rng.choice([(5, 6), (6, 5), (6, 6)])
+            kh, kw = len(K), len(K[0])
+            Xa = rand_raster(rng, H, W, [0, 1, 2, 3, 5, 8], 0.1)
+            Xs = rand_raster(rng, H, W, [0, 1, 2], 0.15)
+            Xc = rand_raster(rng, H, W, [0, 1, 2], 0.05)
+            Wt = [[rng.choice(DYADIC) for _ in range(kw)] for _ in range(kh)]
+            for _ in range(20):
+                Xh = rand_raster(rng, H, W, [-3, -1, 0, 1, 2, 3], 0.0)
+                if not variance_zero(Xh):
+                    break
+            chs = strips(H, W)
+            if q:                       # quick: the strips across the kernel's long axis + 1-cell chunks
+                chs = [chs[0] if kw > kh else chs[1], chs[2]]
+            for ch in chs:
+                jobs.append({"kind": "apply", "func": "apply", "X": Xa, "K": K, "chunks": ch,
+                             "reds": ["sum", "wsum", "nancount"], "tag": "dask_wide_kernel"})
+                jobs.append({"kind": "apply", "func": "focal_stats", "via": "focal_stats", "X": Xs, "K": K,
+                             "chunks": ch, "reds": ["mean", "max", "sum"], "tag": "dask_wide_kernel"})
+                jobs.append({"kind": "conv", "X": Xc, "Wt": Wt, "chunks": ch, "tag": "dask_wide_kernel"})
+                jobs.append({"kind": "hot", "X": Xh, "K": K, "chunks": ch, "tag": "dask_wide_kernel"})
     # mean: passes 0..2, exclusion lists with and WITHOUT NaN (then the NaN padding of a halo must not leak in)
     excls = [[0], [-9999], [1, 2], ["nan"], [0, "nan"], [-9999], [0]]
     for t in range(30 if q else 300):
